@@ -168,7 +168,9 @@ fn nested_fault(core: &mut Core, info: &StartInfo) -> Option<CommandResult> {
     if info.depth == 0 {
         return None;
     }
-    let hit = PLAN.with(|p| {
+    // flow-control commands are never fault points: they cannot fail once their block has started
+    let flow = info.name.starts_with("std::flowcontrol::") || info.name == "end";
+    let hit = !flow && PLAN.with(|p| {
         let mut p = p.borrow_mut();
         match p.as_mut() {
             Some(p) => {
